@@ -187,6 +187,16 @@ def run(ctx):
                                  max_d=24 if big else 12)
         raw = run_case(ctx, FlowCal, cid, spec, path)
         ctx.case_done(class_key=cell + ('rnd',), nontrivial=nontrivial(spec), distinct_key=core.digest(raw))
+    # ---- large files: tens of thousands of events (block-wise or chunked decoding, wide counters) ----------------------
+    kinds_big = ['I-mixed', 'I-uniform', 'F', 'I-mixed', 'D', 'I-uniform']
+    for cid, rng in ctx.cases([('big', i) for i in range(4 if ctx.tier == 'quick' else 24)]):
+        want_kind = kinds_big[cid[1] % len(kinds_big)]
+        cand = [c for c in cells if c[1] == want_kind]
+        cell = cand[int(rng.integers(len(cand)))]
+        N = int(rng.choice([65536, 70001, 131072, 140003, 200000])) if ctx.tier == 'thorough' or cid[1] else 70001
+        spec = layouts.make_spec(rng, cell, n=N, d=int(rng.integers(2, 5)))
+        raw = run_case(ctx, FlowCal, cid, spec, path)
+        ctx.case_done(class_key=('big-file', want_kind, cell[2]), nontrivial=True, distinct_key=core.digest(raw[:4096], len(raw)))
     # ---- refusal family ----------------------------------------------------
     nref = 40 if ctx.tier == 'quick' else 1500
     for kind in REFUSALS:
